@@ -2,10 +2,13 @@
 ID = 'C16'
 LEVEL = 'exploration'
 LEVEL_TEXT = ('exploration: run-time contracts on the real Selector / SelectorList over selectors generated from an abstract CSS3 form (expected specificity and expected sequence of '
-              'simple selectors and combinators known by construction; pseudo-classes not counted, as the statement says), in nine spellings, through a serialisation round trip and attached to a sheet three ways; selector lists: order, '
-              'all-or-nothing rejection in raising and log mode and through the parser, and every append / replace history up to length 3 against a list model')
+              'simple selectors and combinators known by construction; pseudo-classes not counted, as the statement says), in thirteen spellings (white space, comments, letter case, CSS escapes), through a serialisation round trip and attached to a sheet three ways; selector lists: order, '
+              'all-or-nothing rejection in raising and log mode and through the parser, and every append / replace history up to length 3 against a list model (appends as text, pair, new Selector object, '
+              'member object of the same list, and through the alias append())')
 LEVEL_NOTE = ('bounded: compounds of <= 2 simple selectors (+ pseudo-element) from a pool of 55 and 10 pseudo-element endings incl. functional ::part()/::cue()/::slotted(), complex selectors of <= 3 compounds from a pool of 14 (thorough: 4 over 6), fixed spellings '
-              'rather than all spellings, one namespace prefix; nothing is proved for longer selectors, other names, CSS escapes in names or a default namespace')
+              'rather than all spellings (CSS escapes: one escaped letter per word - simple escape of the first / last non-hex letter, short hex escape of the first letter, six-digit hex escape of the last letter - in :not, '
+              'pseudo and function names; names of types, classes, ids and attributes with hex escapes only), one namespace prefix; nothing is proved for longer selectors, other names, simple escapes in names, '
+              'escapes in arguments or a default namespace')
 TECHNIQUE = ('bounded run-time contracts over exhaustively enumerated abstract selectors and list-operation histories; the oracle is the statement (counts by construction, CSS3 an+b grammar '
              'read strictly, a Python list as the list model), evaluated on the unmodified cssutils code')
 DESIGN_REF = 'DESIGN.md section 3, C16; Appendix C (abstract selectors, renderer, operation pools)'
